@@ -192,8 +192,30 @@ func (k *c05) RunCase(c *core.Ctx, i int) {
 		for ci, args := range cmds {
 			got := run(vdir, env, args)
 			if got.class == "timeout" {
-				c.Inconclusive(i, "variant run timed out")
-				continue
+				// no verdict at all where the base journal got one: a hang counts when it
+				// reproduces three times under the same environment
+				hangs := 1
+				for n := 0; n < 2; n++ {
+					if run(vdir, env, args).class == "timeout" {
+						hangs++
+					}
+				}
+				if hangs < 3 {
+					c.Inconclusive(i, fmt.Sprintf("variant run timed out %d of 3 times", hangs))
+					continue
+				}
+				wf := map[string][]byte{}
+				for n, b := range baseFiles {
+					wf["base/"+n] = b
+				}
+				for n, b := range files {
+					wf["variant/"+n] = b
+				}
+				c.Violation(core.Witness{Case: i, Key: args[0] + "-hang",
+					Why: fmt.Sprintf("`knut %s main.knut` ends with class %s on the base journal but does not terminate (3 of 3 attempts, %v) on a variant that only %s",
+						strings.Join(args, " "), base[ci].class, env, []string{"permutes the directives", "splits them over an include tree", "permutes and splits"}[kind]),
+					Files: wf, Cmd: "(cd base && " + knutCmd(c, nil, append(args, "main.knut")...) + ") ; (cd variant && " + knutCmd(c, env, append(args, "main.knut")...) + ")"})
+				return
 			}
 			if got.class == base[ci].class && got.out == base[ci].out {
 				continue
